@@ -18,7 +18,7 @@ static void run(const struct inp *in, unsigned mask, long fail, int nullalloc, s
     int nofault = -1;
     switch (in->kind) {
     case 0: st = polyseed_load(in->buf, &s); nofault = ref_load(in->buf, mask, &rs); break;
-    case 1: st = polyseed_decode(in->str, in->coin, &lo, &s); nofault = ref_decode(in->str, in->coin, -1, mask, 0, CAP, &rs, NULL); break;
+    case 1: st = polyseed_decode(in->str, in->coin, (fail & 1) ? NULL : &lo, &s); nofault = ref_decode(in->str, in->coin, -1, mask, 0, CAP, &rs, NULL); break;
     case 2: st = polyseed_decode_explicit(in->str, in->coin, polyseed_get_lang(in->li), &s); nofault = ref_decode(in->str, in->coin, in->li, mask, 0, CAP, &rs, NULL); break;
     case 3: st = polyseed_create(in->feat, &s); nofault = !ref_supported(in->feat & 7, mask) ? ST_UNSUPPORTED : ST_OK; break;
     }
@@ -100,6 +100,28 @@ static void encode_under_faults(struct res *r) {
     }
 }
 
+/* polyseed_crypt cannot report a status either: with every request of the call failing in turn it must still apply the
+ * password operation exactly (flag toggled, mask of NFKD(password) applied) and leak nothing */
+static void crypt_under_faults(struct res *r) {
+    static const char *PW[] = { "plain ascii password", "contrase\xC3\xB1a", "\xEF\xBD\xB6\xEF\xBE\x9E", "" };
+    rseed base; memset(&base, 0, sizeof base); for (int i = 0; i < 19; i++) base.secret[i] = (uint8_t)(0x5B + 13 * i); base.secret[18] &= 0x3F; base.birthday = 77; base.features = 1;
+    polyseed_dependency d; deps_variant(0, 0, 0, 0, &d); polyseed_inject(&d); polyseed_enable_features(7);
+    for (unsigned k = 0; k < 4; k++) {
+        polyseed_data *s = seed_from_ref(&base); if (!s) { res_viol(r, "c15:crypt-setup", "", "cannot load"); return; }
+        env_clear_log(); polyseed_crypt(s, PW[k]); long nreq = E.alloc_seq; polyseed_crypt(s, PW[k]); r->calls += 2;
+        for (long fail = 0; fail <= nreq; fail++) {
+            rseed want = base; ref_crypt(&want, E.mask);
+            env_clear_log(); E.fail_at = fail; polyseed_crypt(s, PW[k]); E.fail_at = -1; r->calls++; r->cases++;
+            uint8_t st[32], exp[32]; polyseed_store(s, st); ref_storage(&want, exp);
+            char rep[64]; sprintf(rep, "crypt %u %ld", k, fail);
+            if (memcmp(st, exp, 32) || polyseed_is_encrypted(s) != 1) { res_viol(r, "c15:crypt-under-fault", rep, "polyseed_crypt with allocation request #%ld failing did not apply the password operation (encrypted flag %d)", fail, polyseed_is_encrypted(s)); break; }
+            if (ledger_live() != 1 || E.err_foreign_free || E.err_free_null) { res_viol(r, "c15:crypt-ledger", rep, "polyseed_crypt left %d extra block(s)", ledger_live() - 1); break; }
+            polyseed_crypt(s, PW[k]); r->validated++;
+        }
+        polyseed_free(s);
+    }
+}
+
 int main(int argc, char **argv) {
     int a = common_args(argc, argv);
     ref_init(VERIF_ROOT); sec_mark_initial(); env_init(); inject(0); polyseed_enable_features(7);
@@ -140,6 +162,7 @@ int main(int argc, char **argv) {
     }
     for (int i = 0; i < NIN; i++) fill_differential(&IN[i], 7, r);
     encode_under_faults(r);
+    crypt_under_faults(r);
     int triples = 0; for (int k = 0; k < 4; k++) for (int s = 0; s < 8; s++) for (int f = 0; f < 3; f++) triples += seen[k][s][f];
     res_sample(r, "%d inputs (one per entry point x outcome class) x masks {0,5,7} x fail_at {none,0,1} x {injected, libc} allocator; e.g. \"%s\"", NIN, IN[NIN - 1].name);
     out_begin(); out_part("entry points x outcome classes x failing allocation request", r, CLS, ""); out_kv_int("fault_distinct_triples", triples); out_kv_int("fault_inputs", NIN); out_kv_int("max_allocation_requests_per_call", MAX_REQUESTS); out_end();
